@@ -18,6 +18,14 @@ func (e *Engine) execBlock(st *State, b *ssa.BasicBlock, idx int) []outcome {
 		if st.dead {
 			return nil
 		}
+		if idx == 0 && e.cur != nil && e.cur.region != nil && st.fr.parent == nil && e.pure == 0 {
+			if ci, ok := e.cur.children[b]; ok && b != e.cur.region.entry {
+				return []outcome{{st: st, child: ci}}
+			}
+			if !e.cur.region.blocks[b] {
+				return []outcome{{st: st, left: true}}
+			}
+		}
 		if idx == 0 {
 			// loop header handling
 			if li := e.cur.loopsOf(st.fr.fn)[b]; li != nil {
